@@ -9,6 +9,7 @@ import Sidetree.Drv.Patch
 import Sidetree.Drv.Compose
 import Sidetree.Drv.Apply
 import Sidetree.Drv.Keys
+import Sidetree.Drv.Did
 
 open Sidetree
 
@@ -17,7 +18,8 @@ def handlers : List (String × (Json → Json)) :=
    ("validate", Drv.validate), ("origdoc", Drv.origdoc),
    ("compose", Drv.compose), ("protect", Drv.protect), ("patchrt", Drv.patchrt),
    ("parse", Drv.parseKind), ("getters", Drv.gettersKind), ("apply", Drv.applyKind),
-   ("sign", Drv.signKind), ("jws", Drv.jwsKind), ("jwk", Drv.jwkKind), ("jwkparse", Drv.jwkParseKind)]
+   ("sign", Drv.signKind), ("jws", Drv.jwsKind), ("jwk", Drv.jwkKind), ("jwkparse", Drv.jwkParseKind),
+   ("transform", Drv.transformKind), ("resolve", Drv.resolveKind), ("process", Drv.processKind)]
 
 def answer (line : String) : String :=
   let cs := line.toList
